@@ -324,6 +324,9 @@ func groupPolynomialsByEvaluationPoint(fs [][]fr.Element, powersOfR []fr.Element
 					groupedFs[z][j].Add(&groupedFs[z][j], &scaledEvaluation)
 				}
 			}
+			if verifOn {
+				verifGate(start, end)
+			}
 			workersAggregations <- groupedFs
 		}(i*batchSize, (i+1)*batchSize)
 	}
